@@ -447,5 +447,57 @@ def check_heap_flags(ctx: Ctx, oid: str):
     ctx.floor("decision heap pops", pops, 1)
     ctx.floor("in-heap flag sets", pushes, 1)
     un = ctx.func("sat", "solve_sat.unassign_to")
-    t = ast.unparse(un.node)
-    ctx.ob(oid, "R16 PAIRED-EFFECTS", un, "backtracking re-inserts every unassigned variable whose flag is clear", "if not in_heap[var]:\n            heappush(var_heap, (-activity[var], var))\n            in_heap[var] = True" in t, "", node=un.node)
+    reins = [n for n in own_nodes(un.node) if isinstance(n, ast.If) and ast.unparse(n.test) == "not in_heap[var]" and [ast.unparse(x) for x in n.body] == ["heappush(var_heap, (-activity[var], var))", "in_heap[var] = True"]]
+    ctx.ob(oid, "R16 PAIRED-EFFECTS", un, "backtracking re-inserts every unassigned variable whose flag is clear", len(reins) == 1, "", node=un.node)
+    # the propagation head is only ever lowered by backtracking: a literal asserted at the level jumped to (for level 0:
+    # a learned unit, an assumption) may still be waiting, and raising the head past it leaves its watches unvisited
+    heads = [n for n in own_nodes(un.node) if isinstance(n, (ast.Assign, ast.AugAssign)) and ast.unparse(n.targets[0] if isinstance(n, ast.Assign) else n.target) == "prop_head"]
+    ctx.floor("propagation-head stores in unassign_to", len(heads), 1)
+    for h in heads:
+        v = ast.unparse(h.value) if isinstance(h, ast.Assign) else "?"
+        ctx.ob(oid, "R16 PAIRED-EFFECTS", un, "backtracking never moves the propagation head forward", v in ("min(prop_head, len(trail))", "min(len(trail), prop_head)"), f"`{ast.unparse(h)}`: when nothing is undone (backtrack to the current level, e.g. a restart right after a level-0 assertion) the head jumps over the literal that still waits for propagation; once both watches of a clause were skipped like this the clause is never checked again", node=h)
+
+
+def check_input_copy(ctx: Ctx, oid: str):
+    """The solver works on a copy of the input clause list.  The copy is one-to-one, or - if some clauses are left out -
+    the test that leaves a clause out looks at the very literal collection that is kept (a filter that tests the raw
+    clause and keeps a normalised one, or the other way round, drops clauses that still constrain the formula)."""
+    from sa.cfg import cfg_of as _cfg_of
+
+    f = ctx.func("sat", "solve_sat")
+    defs = [n for n in own_nodes(f.node) if isinstance(n, ast.Assign) and len(n.targets) == 1 and ast.unparse(n.targets[0]) == "clauses"]
+    ctx.floor("definitions of the working clause list", len(defs), 1)
+    cfg = _cfg_of(f.node)
+    gv = GuardView(cfg)
+    for d in defs:
+        v = d.value
+        if isinstance(v, ast.ListComp) and len(v.generators) == 1 and ast.unparse(v.generators[0].iter) == "clauses":
+            g = v.generators[0]
+            ok = not g.ifs and ast.unparse(v.elt) in (f"list({ast.unparse(g.target)})", ast.unparse(g.target), f"{ast.unparse(g.target)}[:]")
+            ctx.ob(oid, "R17 PARAM-IMMUTABLE", f, "the working clause list is a one-to-one copy of the input", ok, f"`{ast.unparse(v)[:60]}`", node=d)
+            continue
+        if isinstance(v, ast.Name):
+            built = v.id
+            apps = [n for n in own_nodes(f.node) if isinstance(n, ast.Call) and ast.unparse(n.func) == f"{built}.append" and len(n.args) == 1]
+            ok, why = bool(apps), "" if apps else f"`{built}` is not built by appending"
+            for a in apps:
+                an = cfg.stmt_node_containing(a)
+                lp = an.loop
+                if lp is None or lp.kind != "for" or ast.unparse(lp.ast.iter) != "clauses":
+                    ok, why = False, f"`{ast.unparse(a)}` is not inside a loop over the input clauses"
+                    continue
+                raw = ast.unparse(lp.ast.target)
+                kept = ast.unparse(a.args[0])
+                kept_names = names_in(a.args[0])
+                tests = [b.test.ast for b in cfg.guards(an) if b.test.kind == "test" and b.test.loop is lp]
+                for t in tests:
+                    tn = names_in(t)
+                    if kept == raw or kept in (f"list({raw})",):
+                        good = True  # the raw clause is kept: any test on it is about the kept clause
+                    else:
+                        good = bool(kept_names & tn) and raw not in tn
+                    if not good:
+                        ok, why = False, f"the clause kept is `{kept}` but the test that leaves clauses out, `{ast.unparse(t)[:60]}`, looks at `{raw}`"
+            ctx.ob(oid, "R17 PARAM-IMMUTABLE", f, "a clause is left out of the working list only by a test on the very literal collection that is kept", ok, why + (": a clause such as [x, x, y] (a repeated literal, not a tautology) is dropped and the solver answers for a weaker formula" if why else ""), node=d)
+            continue
+        ctx.ob(oid, "R17 PARAM-IMMUTABLE", f, "the working clause list is a recognisable copy of the input", False, f"`{ast.unparse(v)[:60]}`", node=d)
